@@ -77,7 +77,7 @@ impl Distribution1D for Binomial {
 pub fn binomial_inversion(n: u64, p: f64) -> u64 {
     let s = p / (1. - p);
     let a = (n as f64 + 1.) * s;
-    let mut r = (1. - p).powf(n as f64);
+    let mut r = (n as f64 * (-p).ln_1p()).exp();
     let mut u = alea::f64();
     let mut x: u64 = 0;
     while u > r as f64 {
